@@ -24,11 +24,13 @@ func (node *HusbandNode) Individual() *IndividualNode {
 
 	n := node.family.document.NodeByPointer(valueToPointer(node.value))
 
-	if IsNil(n) {
+	// The pointer may not exist or may belong to another kind of record.
+	individual, ok := n.(*IndividualNode)
+	if !ok {
 		return nil
 	}
 
-	return n.(*IndividualNode)
+	return individual
 }
 
 func (node *HusbandNode) Similarity(other *HusbandNode, options SimilarityOptions) float64 {
